@@ -69,6 +69,19 @@ theorem dnf_equiv_nonempty (v : Val) (full : Bool) (r : R) (h : nonEmptyNodes r 
 
 example : nonEmptyNodes (.or true [.neg (.and false [.leaf 0]), .atMostOne false [], .atom []]) = true := by decide
 
+/-- one direction needs no guard at all: whatever the tree matches, some clause of its DNF matches (the DNF can only be
+too permissive, and only inside the finding class).  Candidate pruning of repository queries (C08) relies on exactly
+this direction. -/
+theorem dnf_complete_unguarded (v : Val) (full : Bool) (r : R) (h : mtch v r = true) :
+    ∃ cl ∈ dnf full r, ∀ m ∈ cl, mtch v m = true := by
+  rw [mtch_eq] at h
+  have := dnf_complete v full r h
+  simp only [evalDnf, evalConj, List.any_eq_true, List.all_eq_true] at this
+  obtain ⟨cl, hcl, hall⟩ := this
+  exact ⟨cl, hcl, fun m hm => by rw [mtch_eq]; exact hall m hm⟩
+
+example : mtch (fun i => i == 0) (.or false [.and false [.leaf 0, .or false []], .leaf 0]) = true := by decide
+
 /-- `assert s2` in `AndRestriction.iter_dnf_solutions` cannot fire: every DNF has at least one clause -/
 theorem dnf_total (full : Bool) (r : R) : dnf full r ≠ [] := dnf_ne_nil full r
 
